@@ -210,7 +210,8 @@ def r3(ctx):
 def r4(ctx):
     fin = require_func(ctx, "create._DBCreator._finalize")
     sites = [s for s in execute_sites(ctx, [fin]) if s.stmts and s.stmts[0].verb == "INSERT" and s.stmts[0].table.lower() == "directives"]
-    ctx.floor("R4", len(sites), 1, "INSERT INTO directives sites")
+    ctx.ob("R4", len(sites) >= 1, "finalisation writes the directives to the database", func=fin,
+           sig="directives persisted by _finalize" if sites else "_finalize never inserts into `directives`")
     for s in sites:
         p = s.params
         src = None
